@@ -9,7 +9,9 @@ EXPLANATION = (
     "path (dumps/loads) use the same library routine with the same keyword map (hooks included), apply class re-creation / "
     "byte normalisation / marshal pre-conversion to the same effect (recreate_classes on vargs AND kwargs iff on results, "
     "etc.); msgpack's extension types are written and read by inverse codec pairs with equal parameters (struct format, byte "
-    "order, signedness) and every written ext code is read; compression flag/transform pairing (shared with C06-R7). "
+    "order, signedness) and every written ext code is read; recreate_classes descends into set/list/tuple/dict alike; server and "
+    "client use one serializer object per exchange; the call envelope (object, method, vargs, kwargs) is written and read in matching "
+    "positions/keys; compression flag/transform pairing (shared with C06-R7). "
     "Not decided: that serpent/json/marshal/msgpack/zlib return what was put in over the unbounded value domain, the "
     "documented type mapping, idempotence."
 )
